@@ -162,6 +162,10 @@ class Repo:
             if '__pycache__' in f.parts:
                 continue
             mods.append(Module(self.root, f))
+        # pure renames of methods the rules name are mapped back first (sa/anchors.py)
+        from . import anchors as _anchors
+        self.renamed = _anchors.detect([m.tree for m in mods])
+        _anchors.apply([m.tree for m in mods] + [m.orig_tree for m in mods], self.renamed)
         # source normalisation (sa/normalize.py): needs every class for helper lookup
         self.normalised = {}
         if normalise:
